@@ -142,7 +142,7 @@ type unary struct {
 var unaries = []unary{
 	{isGroup: true},
 	{"?", 0, 1, false, false}, {"*", 0, -1, false, false}, {"+", 1, -1, false, false},
-	{"{0}", 0, 0, false, false}, {"{1}", 1, 1, false, false}, {"{2}", 2, 2, false, false},
+	{"{0}", 0, 0, false, false}, {"{1}", 1, 1, false, false}, {"{2}", 2, 2, false, false}, {"{0,0}", 0, 0, false, false}, {"{1,1}", 1, 1, false, false},
 	{"{0,}", 0, -1, false, false}, {"{1,}", 1, -1, false, false}, {"{2,}", 2, -1, false, false},
 	{"{0,1}", 0, 1, false, false}, {"{0,2}", 0, 2, false, false}, {"{1,2}", 1, 2, false, false}, {"{2,2}", 2, 2, false, false},
 	{"?", 0, 1, true, false}, {"*", 0, -1, true, false}, {"+", 1, -1, true, false}, {"{1,2}", 1, 2, true, false},
